@@ -485,7 +485,7 @@ RunCmds(b, i, acc) ==
 
 RunBody(b, st) ==
   LET a == RunCmds(b, 1, [out |-> <<>>, st |-> st, done |-> FALSE, err |-> ""])
-  IN [out |-> a.out, status |-> IF b = <<>> THEN "open" ELSE a.st.st, err |-> a.err, st |-> a.st]
+  IN [out |-> a.out, status |-> IF b = <<>> THEN "open" ELSE a.st.st, err |-> a.err, st |-> a.st, done |-> a.done]
 
 ---------------------------------------------------------------------------
 (* Contexts (the command the harness builds around the text of the word):  *)
